@@ -191,6 +191,7 @@ func runC09(c *Ctx, idx int, o *Obs) {
 	baseText := base.Newick()
 	strength := gen.Pick(r, 0, 1, 2, 4, 8)
 	rootedP := gen.Pick(r, 0.0, 0.0, 0.3, 1.0)
+	starP := gen.Pick(r, 0.0, 0.0, 0.1, 0.5)
 	var texts []string
 	anyRooted := false
 	for i := 0; i < ntrees; i++ {
@@ -200,6 +201,18 @@ func runC09(c *Ctx, idx int, o *Obs) {
 		}
 		rooted := r.Float64() < rootedP
 		s := perturbedTree(r, baseText, k, rooted, lenCls)
+		if r.Float64() < starP {
+			// a completely unresolved tree: it has no split of its own but counts in every denominator and mean
+			st := mustParse(baseText)
+			st.RemoveEdges(false, false, st.InternalEdges()...)
+			for _, e := range st.Edges() {
+				e.SetLength(gen.Float(r, lenCls))
+			}
+			rand.Seed(r.Int63())
+			st.RotateInternalNodes()
+			s = st.Newick()
+			o.Ev("star_tree_in_collection", 1)
+		}
 		if len(modelOf(mustParse(s)).Root.Children) == 2 {
 			anyRooted = true
 		}
